@@ -8,8 +8,9 @@ def run(ctx):
     ctx.assumptions += [
         "inputs are integer lattice points with dyadic scalings 2^e (exact in f32/f64); expected values are exact affine forms "
         "r + a ln(2 pi) + b ln(det) + c ln 2 and rational gradients computed by TLC; only the three logarithms are evaluated in f64",
-        "tolerance: f32-level (3e-5 x magnitude of the summed terms) for every tensor-based target (burn's from_floats goes "
-        "through f32 even on the f64 backend), 1e-10 relative for the pure-f64 ndarray/scalar paths",
+        "tolerance: f32-level (3e-5 x magnitude of the summed terms) for the tensor-based targets on the lattice, 1e-10 relative for the "
+        "pure-f64 ndarray/scalar paths; the f64 tensor target is additionally evaluated translated by (12345.7, -9876.5), an offset f32 cannot "
+        "hold, with tolerance 1e-6 (its parameters used to be rounded to f32 by Tensor::from_floats: defect D16)",
         "TLC proves on the lattice that the specification's gradient is the gradient of the specification's log-density "
         "(central differences exact for quadratics, 5-point stencil exact for the quartic Rosenbrock forms)",
     ]
